@@ -349,8 +349,10 @@ func (m *mon) pairLaws(recipe string, a, b item) {
 		dir(a, b, cAB, pc1)
 		dir(b, a, cBA, pc2)
 	}
-	// scalars: zero exactly when equal
-	if isScalar(a.s.code) && isScalar(b.s.code) {
+	// scalars: zero exactly when equal. Two summaries of the same type count as scalars here (a
+	// fixed numeric payload, no elements of their own; their Equals and CompareTo both look at
+	// sum and count).
+	if (isScalar(a.s.code) && isScalar(b.s.code)) || (a.s.code == b.s.code && (a.s.code == cLSum || a.s.code == cDSum)) {
 		if pe1 == nil && pc1 == nil {
 			c.Count("law_CompareTo_zero_iff_equal", 1)
 			if (cAB == 0) != eAB {
